@@ -2350,7 +2350,10 @@ def explore_c09(ctx, res, replay_ops=None):
     procs = [4, 16] if ctx.tier == "quick" else [1, 2, 4, 8, 16]
     for gmp in procs:
         impl = core.harness_run(h, "conc", ops, env_extra={"GOMAXPROCS": str(gmp), "GORACE": "halt_on_error=0"})
-        _race_scan(res, "C09", ops, gmp, "batches and loops of concurrent requests")
+        # (after a batch that did not return, the requests left behind run next to whatever the harness does next: a deadlock is
+        #  reported as such, not as the races that follow from it)
+        if not any(x.startswith("done=0") for x in impl):
+            _race_scan(res, "C09", ops, gmp, "batches and loops of concurrent requests")
         _conc_extra(res, ops, impl, "C09")
         _hammer_check(res, ops, impl, "C09")
         _conc_check(res, ops, impl, gmp, "C09")
@@ -2359,7 +2362,8 @@ def explore_c09(ctx, res, replay_ops=None):
     if replay_ops is None:
         cops = _conc_corpus("C09", True) + core.harness_gen(ctx.harness, "conc", ctx.seed, 0, ctx.tier, ("-mode", "cgf"))
         cimpl = core.harness_run(h, "conc", cops, env_extra={"GOMAXPROCS": "4", "GORACE": "halt_on_error=0"})
-        _race_scan(res, "C09", cops, 4, "CDR transfer to the billing domain enabled")
+        if not any(x.startswith("done=0") for x in cimpl):
+            _race_scan(res, "C09", cops, 4, "CDR transfer to the billing domain enabled")
         for op, im in zip(cops, cimpl):
             if op.startswith("conc cgf ") and not im.startswith("ok"):
                 res.violation("oracle", "C09: the CDR-transfer scenario could not be set up (%s)" % im, [op, "# impl: " + im], found_input=False)
